@@ -1,0 +1,70 @@
+//go:build verif
+// +build verif
+
+package fsutil
+
+// Thin exported wrappers around unexported pure pieces, compiled only with
+// the "verif" build tag, so that the verification harness in /verif can drive
+// them in memory. Nothing here changes behaviour of the library.
+
+import (
+	"bytes"
+	"context"
+	"os"
+
+	"github.com/tonistiigi/fsutil/types"
+)
+
+// VerifChange is one callback invocation of doubleWalkDiff.
+type VerifChange struct {
+	Kind ChangeKind
+	Path string
+	Stat *types.Stat
+}
+
+func verifWalker(stats []*types.Stat) walkerFn {
+	return func(ctx context.Context, pathC chan<- *currentPath) error {
+		for _, st := range stats {
+			select {
+			case <-ctx.Done():
+				return ctx.Err()
+			case pathC <- &currentPath{path: st.Path, stat: st}:
+			}
+		}
+		return nil
+	}
+}
+
+// VerifDiff runs doubleWalkDiff over two in-memory stat listings.
+func VerifDiff(lower, upper []*types.Stat, differ DiffType) ([]VerifChange, error) {
+	var out []VerifChange
+	err := doubleWalkDiff(context.Background(), func(k ChangeKind, p string, fi os.FileInfo, err error) error {
+		if err != nil {
+			return err
+		}
+		var st *types.Stat
+		if fi != nil {
+			st, _ = fi.Sys().(*types.Stat)
+		}
+		out = append(out, VerifChange{Kind: k, Path: p, Stat: st})
+		return nil
+	}, verifWalker(lower), verifWalker(upper), nil, differ)
+	return out, err
+}
+
+// VerifDedupePaths exposes dedupePaths.
+func VerifDedupePaths(in []string) []string {
+	return dedupePaths(in)
+}
+
+// VerifBufferFrames allocates the given frames in a fresh buffer, fills frame i
+// with fill(i), and returns what WriteTo emits.
+func VerifBufferFrames(frames [][]byte) ([]byte, int) {
+	b := &buffer{}
+	for _, f := range frames {
+		copy(b.alloc(len(f)), f)
+	}
+	var w bytes.Buffer
+	b.WriteTo(&w)
+	return w.Bytes(), len(b.chunks)
+}
